@@ -1243,11 +1243,13 @@ impl PrettyPrint for Statement<'_> {
         match self {
             Statement::DefineVariable(DefineVariable {
                 name,
+                decorators,
                 expr,
                 readable_type,
                 ..
             }) => {
-                m::keyword("let")
+                decorator_markup(decorators)
+                    + m::keyword("let")
                     + m::space()
                     + m::identifier(name.to_compact_string())
                     + m::operator(":")
@@ -1260,6 +1262,7 @@ impl PrettyPrint for Statement<'_> {
             }
             Statement::DefineFunction {
                 function_name,
+                decorators,
                 type_parameters,
                 parameters,
                 body,
@@ -1304,15 +1307,17 @@ impl PrettyPrint for Statement<'_> {
                     pretty_local_variables = Some(plv);
                 }
 
-                pretty_print_function_signature(
-                    function_name,
-                    &fn_type,
-                    &type_parameters,
-                    parameters
-                        .iter()
-                        .map(|(_, name, _, type_)| (*name, type_.clone())),
-                    readable_return_type,
-                ) + body
+                decorator_markup(decorators)
+                    + pretty_print_function_signature(
+                        function_name,
+                        &fn_type,
+                        &type_parameters,
+                        parameters
+                            .iter()
+                            .map(|(_, name, _, type_)| (*name, type_.clone())),
+                        readable_return_type,
+                    )
+                    + body
                     .as_ref()
                     .map(|e| m::space() + m::operator("=") + m::space() + e.pretty_print())
                     .unwrap_or_default()
